@@ -87,10 +87,12 @@ def generate(rng, tier, index):
         triples = gen.gen_schema_graph(rng, n_nodes=n_nodes, n_classes=rng.randint(1, 3), n_props=rng.randint(1, 4), bnodes=bnodes)
     else:
         triples = gen.gen_graph(rng, n_nodes=n_nodes, n_classes=rng.randint(1, 3), n_props=rng.randint(1, 5), bnodes=bnodes, kinds=kinds)
-    if not gen.classes_of(triples):
-        triples = sorted(set(triples) | {(gen.iri(gen.EX + "n0"), gen.iri(gen.RDF_TYPE), gen.iri(gen.EX + "C0"))}, key=repr)
-    target = gen.gen_target(rng, triples, allow_shape_map=False)
+    tp = gen.CUSTOM_TYPE if rng.random() < 0.12 else gen.RDF_TYPE
+    triples = gen.retype(gen.ensure_class(triples), tp)
+    target = gen.gen_target(rng, triples, allow_shape_map=False, type_prop=tp)
     options = gen.gen_options(rng, allow_inverse=True)
+    if tp != gen.RDF_TYPE:
+        options["instantiation_property"] = tp
     if rng.random() < 0.15:
         options["detect_minimal_iri"] = True
     n_ch = rng.randint(10, 16) if tier == "thorough" else rng.randint(8, 12)
